@@ -43,7 +43,7 @@ func c13Snapshot(dir string) map[string]string {
 	return out
 }
 
-func c13Scenario(c *Ctx, idx int, r *Rng) (mline, mimpl, mcase string) {
+func c13Scenario(c *Ctx, idx int, r *Rng, extra func(l, m, cs string)) (mline, mimpl, mcase string) {
 	base := filepath.Join(c.Work, fmt.Sprintf("c13-%d", idx))
 	defer os.RemoveAll(base)
 	os.MkdirAll(base, 0o755)
@@ -469,6 +469,99 @@ func c13Scenario(c *Ctx, idx int, r *Rng) (mline, mimpl, mcase string) {
 			}
 		}
 	}
+	// ---- a second damage of the same objects (a re-fetch that went wrong again): lfs/bad/<oid> already exists
+	if !dry && objectsOn && r.Chance(60) {
+		var again []string
+		for _, o := range oidList {
+			if objState[o] == "corrupt" && seenRef[o] {
+				if _, ok := after["bad/"+o]; ok {
+					again = append(again, o)
+				}
+			}
+		}
+		if len(again) > 0 {
+			want := map[string]string{}
+			for _, o := range again {
+				nb := []byte("damaged a second time " + o[:16] + string(r.Bytes(1+r.Intn(30))))
+				p := w.objectPath(o)
+				os.MkdirAll(filepath.Dir(p), 0o755)
+				os.WriteFile(p, nb, 0o644)
+				want[o] = sha(nb)
+			}
+			out2, code2 := w.runLfs(append([]string{"fsck", "--objects"}, revArgs...)...)
+			after2 := c13Snapshot(w.dir)
+			c.R.Count("fsck.second-damage")
+			var obj2 []string
+			for _, l := range strings.Split(out2, "\n") {
+				if strings.HasPrefix(l, "objects: ") && !strings.HasPrefix(l, "objects: repair") {
+					obj2 = append(obj2, l)
+				}
+			}
+			if code2 == 0 {
+				fail("fsck exited 0 although the checked revisions have damaged objects or bad pointers", "second damage | "+clip(out2, 300), "")
+			}
+			for _, o := range again {
+				if !named(obj2, o) {
+					fail("fsck did not name a corrupt object that the checked revisions reference", "second damage "+o[:12]+" | "+clip(out2, 300), "")
+				}
+				if _, still := after2["objects/"+o[:2]+"/"+o[2:4]+"/"+o]; still {
+					fail("a corrupt object that fsck reported is still in place after the repairing run", "second damage (lfs/bad/"+o[:12]+" existed already)", "")
+					continue
+				}
+				kept := false
+				for rel, h := range after2 {
+					if strings.HasPrefix(rel, "bad/") && h == want[o] {
+						kept = true
+					}
+				}
+				if !kept {
+					fail("a corrupt object was not moved aside to lfs/bad with its content (it was deleted or altered)", "second damage "+o[:12], "")
+				}
+			}
+			// the second run in the model's vocabulary: the same model, whatever lfs/bad already holds
+			if !nested {
+				isAgain := map[string]bool{}
+				for _, o := range again {
+					isAgain[o] = true
+				}
+				var rp2, ro2, mv2 []string
+				for i, rf := range refs {
+					z, st := "n", "m"
+					if rf.size == 0 {
+						z = "z"
+					}
+					if isAgain[rf.oid] {
+						st = "c"
+					} else if rf.state == "intact" {
+						st = "i"
+					}
+					rp2 = append(rp2, fmt.Sprintf("%d:%s:%s", i+1, z, st))
+					if named(obj2, rf.oid) {
+						ro2 = append(ro2, fmt.Sprint(i+1))
+					}
+					_, still := after2["objects/"+rf.oid[:2]+"/"+rf.oid[2:4]+"/"+rf.oid]
+					if isAgain[rf.oid] && !still && after2["bad/"+rf.oid] == want[rf.oid] {
+						mv2 = append(mv2, fmt.Sprint(i+1))
+					}
+				}
+				sort.Strings(ro2)
+				sort.Strings(mv2)
+				ex2 := "ok"
+				if code2 != 0 {
+					ex2 = "fail"
+				}
+				extra(fmt.Sprintf("C13 fsck 100 %s -", joinOrDash(rp2)), fmt.Sprintf("%s objects=%s pointers=- moved=%s", ex2, joinOrDash(ro2), joinOrDash(mv2)), enc+" ; second damage")
+			}
+			for rel, h := range after {
+				oid := filepath.Base(rel)
+				if strings.HasPrefix(rel, "objects/") && objState[oid] == "intact" {
+					if h2, ok := after2[rel]; !ok || h2 != h {
+						fail("fsck touched an intact object", "second run "+oid[:12], "")
+					}
+				}
+			}
+		}
+	}
 	// ---- the model line
 	ids := map[string]int{}
 	id := func(s string) int {
@@ -565,7 +658,13 @@ func c13(c *Ctx) {
 					c.R.Add(Finding{Kind: "diff", What: fmt.Sprintf("scenario harness problem: %v", x), Broken: "corr.C13.scenario"})
 				}
 			}()
-			l, m, cs := c13Scenario(c, i, rs)
+			l, m, cs := c13Scenario(c, i, rs, func(l, m, cs string) {
+				mu.Lock()
+				lines = append(lines, l)
+				impl = append(impl, m)
+				cases = append(cases, cs)
+				mu.Unlock()
+			})
 			if l != "" {
 				mu.Lock()
 				lines = append(lines, l)
